@@ -50,6 +50,7 @@ var rpDomain []int64
 
 func gcNow() time.Time { panic("govc-replay-unsupported: gcNow") }
 func gcOld[T any](x T) T { return x }
+func gcOldAt[T any](label string, x T) T { panic("govc-replay-unsupported: oldat") }
 func gcIte[T any](c bool, a, b T) T { if c { return a }; return b }
 func gcImplies(a, b bool) bool { return !a || b }
 func rpEach[T any](f func(T) bool, all bool) bool {
